@@ -466,7 +466,7 @@ def run(ctx, lean):
     names = ['corr:spec-language', 'corr:bisect.exact', 'corr:bisect.libm', 'corr:bisect.caller-arrays',
              'corr:bisect.rejects', 'corr:chandrupatla.exact', 'corr:chandrupatla.libm',
              'corr:chandrupatla.rejects', 'corr:chandrupatla.scalar', 'corr:chandrupatla.dtype', 'corr:bisect.dtype',
-             'corr:options',
+             'corr:options', 'corr:lane-position',
              'corr:kde.percent_point']
     if lean is None:
         for n in names[:-1]:
@@ -581,6 +581,44 @@ def gen_options_batch(ctx, rng, n):
             lanes.append(('lin', 1.0, 0.0, -1e-4, 1e-4))
     ctx.count(f'options-batch:{mode}')
     return lanes
+
+
+POSITION_COUNTS = (256, 257, 300, 511, 513, 777, 1000)
+
+
+def gen_position_batch(ctx, rng, n, where):
+    """n - 1 easy lanes (linear / saturating, moderate slope, narrow bracket: a handful of iterations) and ONE slow
+    lane (cubic / quintic flat root or steep exponential on a wide bracket: tens of iterations) at the first, middle
+    or LAST position: `np.all(terminate)` / `.max()` must look at every lane.  Returns (lanes, index of the slow
+    lane)."""
+    lanes = []
+    for _ in range(n):
+        for _ in range(50):
+            kind = rng.choice(('lin', 'lin', 'sat', 'aff'))
+            r = logu(rng, -1, 2) * rng.choice([-1, 1])
+            w = max(1.0, abs(r)) * logu(rng, -3, -1)
+            u = rng.uniform(0.1, 0.9)
+            lo, hi = r - u * w, r + (1 - u) * w
+            p = logu(rng, -1, 1)
+            q = p * r if kind == 'aff' else r
+            if _valid(kind, p, q, lo, hi):
+                lanes.append((kind, p, q, lo, hi))
+                break
+        else:
+            lanes.append(('lin', 1.0, 0.3, 0.0, 1.0))
+    k = {'first': 0, 'middle': n // 2, 'last': n - 1}[where]
+    for _ in range(50):
+        kind = rng.choice(('cubic', 'quint', 'cubic', 'expm'))
+        r = logu(rng, -1, 2) * rng.choice([-1, 1])
+        w = max(1.0, abs(r)) * logu(rng, 1, 3)
+        u = rng.uniform(0.05, 0.95)
+        lo, hi = r - u * w, r + (1 - u) * w
+        p = logu(rng, -3, 1) if kind != 'expm' else logu(rng, 0, 2)
+        if _valid(kind, p, r, lo, hi):
+            lanes[k] = (kind, p, r, lo, hi)
+            break
+    ctx.count(f'position-batch:n={n}:{where}')
+    return lanes, k
 
 
 def lane_counts(ctx, rng, k):
@@ -750,6 +788,27 @@ def tie_chand(ctx, lean):
     ctx.ob('corr:chandrupatla.exact', bad['exact'] is None, 'tie', bad['exact'] or 'ok')
     ctx.ob('corr:chandrupatla.libm', bad['libm'] is None, 'tie', bad['libm'] or 'ok')
     ctx.ob('corr:options', bado is None, 'tie', bado or 'ok')
+    # every lane counts for the stop test, wherever it sits: one slow lane among n - 1 easy ones
+    rng = ctx.rng('chand', 'position')
+    badp = None
+    plan = [(n, 'last') for n in POSITION_COUNTS] + [(257, 'first'), (513, 'middle'), (777, 'first'), (300, 'middle')]
+    if ctx.scale > 1:
+        plan = [(n, w) for n in POSITION_COUNTS for w in ('first', 'middle', 'last')] * 2
+    for n, where in plan:
+        lanes, k = gen_position_batch(ctx, rng, n, where)
+        bitwise = all(l[0] in BIT_KINDS for l in lanes)
+        for method in ('chandrupatla', 'bisect'):
+            if method == 'chandrupatla':
+                R, L = real_chand(lanes, None, None, None), lean_chand(lean, lanes, None, None, None)
+                d = cmp_chand(None, lanes, R, L, bitwise, None, None, None)
+            else:
+                R, L = real_bisect(lanes, None, None), lean_bisect(lean, lanes, None, None)
+                d = cmp_bisect(None, lanes, R, L, bitwise, None, None)
+            ctx.case((method + '-position', n, where, tuple(lanes[k])), nontrivial=(R.get('iters', 0) > 1))
+            ctx.count(f'{method}:position:{where}:' + ('agrees' if d is None else 'DIFFERS'))
+            if d and badp is None:
+                badp = dict(d, method=method, n=n, slow_lane_at=k, slow_lane=lanes[k])
+    ctx.ob('corr:lane-position', badp is None, 'tie', badp or 'ok')
 
 
 def tie_dtype(ctx, lean):
@@ -933,6 +992,11 @@ def kde_datasets(nprng):
         'bimodal-at-100': np.concatenate([nprng.normal(95.0, 1.0, 40), nprng.normal(105.0, 2.0, 40)]),
         'skewed-at-1e4': 1e4 + nprng.exponential(25.0, 80),
         'narrow-at-1e4': nprng.normal(1e4, 0.5, 30),
+        # offset / spread 1e5 .. 1e7: NOT constant data, although all values agree to 5-7 digits
+        'unit-at-1e6': 1e6 + nprng.normal(0.0, 1.0, 50),
+        'sd40-at-2.5e7': 2.5e7 + nprng.normal(0.0, 40.0, 60),
+        'sd0.01-at-1e3': 1e3 + nprng.normal(0.0, 0.01, 40),
+        'negative-sd3-at--3e6': -3e6 + nprng.normal(0.0, 3.0, 40),
     }
 
 
@@ -977,7 +1041,55 @@ def kde_oracle(name, data, u64, variants=KDE_VARIANTS, count=None):
     from copulas.univariate import GaussianKDE
     kde = GaussianKDE()
     kde.fit(data)
+    fails = kde_independent_oracle(kde, name, data, u64, count)
+    if fails:       # the model is not the KDE of its data: its own cdf is no reference either
+        return fails
     return kde_model_oracle(kde, name, u64, variants, count)
+
+
+def kde_independent_oracle(kde, name, data, u64, count=None):
+    """cdf(percent_point(u)) = u against an INDEPENDENT CDF (scipy.stats.gaussian_kde built from the same data, same
+    default bandwidth rule) for the default solver and both named solvers: no exception, finite, inside
+    [min - 5 std, max + 5 std], residual within max-density * x-tolerance (+ 2e-6 for the lower-tail constant the
+    model subtracts).  Returns (class suffix, detail) list."""
+    from scipy.stats import gaussian_kde
+    data = np.asarray(data, dtype=float).ravel()
+    ref = gaussian_kde(data)
+    bw = float(np.sqrt(ref.covariance[0, 0]))
+    slope = 1.0 / (bw * math.sqrt(2 * math.pi))
+    lo, hi = float(data.min() - 5 * data.std()), float(data.max() + 5 * data.std())
+    u = u64[(u64 > 1e-4 * 0.99) & (u64 < 1 - 1e-4 * 0.99)]
+    out = []
+    for method in (None, 'chandrupatla', 'bisect'):
+        tag = 'default' if method is None else method
+        kw = {} if method is None else {'method': method}
+        bad = None
+        try:
+            x = np.asarray(kde.percent_point(u.copy(), **kw), dtype=float)
+        except Exception as e:  # noqa
+            bad = ('raises', {'error': repr(e)[:160]})
+        if bad is None:
+            ulp = float(np.spacing(max(abs(lo), abs(hi))))
+            xtol = (1e-8 if method == 'bisect' else 1e-9 * (hi - lo)) + 8 * ulp
+            if x.shape != u.shape or not np.isfinite(x).all():
+                bad = ('non-finite', {'shape': list(x.shape), 'x': x[:3].tolist()})
+            elif (x < lo - 4 * ulp).any() or (x > hi + 4 * ulp).any():
+                i = int(np.argmax((x < lo - 4 * ulp) | (x > hi + 4 * ulp)))
+                bad = ('outside-bounds', {'u': float(u[i]), 'x': float(x[i]), 'bounds': [lo, hi]})
+            else:
+                cdf = np.array([ref.integrate_box_1d(-np.inf, xi) for xi in x])
+                err = np.abs(cdf - u)
+                bound = slope * xtol + 2e-6
+                if (err > bound).any():
+                    i = int(np.argmax(err))
+                    bad = ('residual', {'u': float(u[i]), 'x': float(x[i]), 'independent_cdf(x)': float(cdf[i]),
+                                        'allowed': bound, 'data_min': float(data.min()), 'data_max': float(data.max())})
+        if count:
+            count(f'kde-independent:{tag}:' + ('ok' if not bad else 'FAILS'))
+        if bad:
+            out.append((f'{tag}:independent-cdf:{bad[0]}',
+                        dict(bad[1], dataset=name, method=tag, offset_over_spread=float(abs(data.mean()) / max(data.std(), 1e-300)))))
+    return out
 
 
 def kde_model_oracle(kde, name, u64, variants=KDE_VARIANTS, count=None):
@@ -1388,6 +1500,32 @@ def oracle_scalar(lane, stype):
     return fails
 
 
+def oracle_position(method, lanes, k, rng):
+    """one slow lane at index k among easy lanes: containment / closeness of every lane, and the slow lane solved
+    as if it were alone - the batch stops when IT stops, so the batch runs as many bodies as the slow lane alone
+    and returns the same bits for it; sampled easy lanes agree with their solo run within tolerance."""
+    fails, R = oracle_case(method, lanes, {})
+    if fails:
+        return fails
+
+    def call(ls):
+        return real_bisect(ls, None, None) if method == 'bisect' else real_chand(ls, None, None, None)
+    S = call([lanes[k]])
+    easy = [call([lanes[i]]) for i in rng.sample([i for i in range(len(lanes)) if i != k], 6)]
+    if S['st'] != 'ok' or any(e['st'] != 'ok' for e in easy):
+        return [(f'{method}:solo-rejected', {'lane': lanes[k]}, 'lane alone behaves like the lane in a batch')]
+    if S['iters'] >= max(e['iters'] for e in easy) and True:
+        if R['iters'] != S['iters']:
+            return [(f'{method}:stopping-time',
+                     {'batch_iters': R['iters'], 'slow_lane_solo_iters': S['iters'], 'n': len(lanes), 'slow_lane_at': k,
+                      'lane': lanes[k]}, 'the batch stops when its slowest lane stops')]
+        if not same_bits(float(S['res'][0]), float(R['res'][k])):
+            return [(f'{method}:lane-independence',
+                     {'lane': lanes[k], 'solo': float(S['res'][0]), 'batch': float(R['res'][k]), 'n': len(lanes),
+                      'slow_lane_at': k}, 'the slowest lane in a batch == the lane alone (bit for bit)')]
+    return []
+
+
 def oracle_shared_table(method, lanes, rounds=3):
     """one float64 bracket table shared by several solves (the way a caller keeps its bracket arrays): after every
     solve the table is untouched bit for bit, no round rejects the (valid) brackets, every round returns the roots
@@ -1588,6 +1726,25 @@ def search(ctx, deep):
                 checked += 1
             ctx.count(f'search:options:{method}:{combo_label(method, params)}:' + ('ok' if not fails else 'FAILS'))
             report(method, lanes, params, fails)
+    # lane counts around the multiples of 256 with one slow lane at the first / middle / last position
+    prng = ctx.rng('search-position')
+    for rep_ in range(3 if deep else 1):
+        for n in POSITION_COUNTS:
+            for where in ('first', 'middle', 'last'):
+                lanes, k = gen_position_batch(ctx, prng, n, where)
+                for method in ('chandrupatla', 'bisect'):
+                    checked += 1
+                    fails = oracle_position(method, lanes, k, prng)
+                    ctx.count(f'search:position:{method}:{where}:' + ('ok' if not fails else 'FAILS'))
+                    for cls, obs, req in fails:
+                        o = obs if isinstance(obs, dict) else {}
+                        keep = [o['lane']] if o.get('lane') else [lanes[k]]
+                        found += 1
+                        # self-contained replay: the batch is regenerated from (n, where, seed path); the lane is kept
+                        ctx.fail_input(f'copulas.optimize.{method}',
+                                       {'method': method, 'params': {'position': where}, 'n': n, 'slow_lane_at': k,
+                                        'lanes': [list(l) for l in lanes] if n <= 300 else keep, 'truncated': n > 300},
+                                       obs, req, cls)
     # one bracket table shared by repeated solves; output form of scalar and vector calls
     frng = ctx.rng('search-form')
     for b in range(12 * (8 if deep else 1)):
@@ -1672,6 +1829,10 @@ def replay(ctx, payload):
         return False
     if inp.get('invalid'):
         return bool(oracle_invalid(method, lanes, inp['invalid']))
+    if (inp.get('params') or {}).get('position') and not inp.get('truncated') and inp.get('slow_lane_at') is not None:
+        return bool(oracle_position(method, lanes, int(inp['slow_lane_at']), ctx.rng('replay')))
+    if (inp.get('params') or {}).get('position'):
+        return bool(oracle_case(method, lanes, {})[0])
     if (inp.get('params') or {}).get('shared_table'):
         return bool(oracle_shared_table(method, lanes, int(inp['params']['shared_table'])))
     if (inp.get('params') or {}).get('form'):
